@@ -227,9 +227,9 @@ func ExpectFor(st ReqStep, reg RegSpec) Expect {
 
 // Frame is a decoded message frame.
 type Frame struct {
-	Raw   []byte
-	V     map[string]interface{}
-	Kind  string // response, error, notification, request
+	Raw  []byte
+	V    map[string]interface{}
+	Kind string // response, error, notification, request
 }
 
 // DecodeFrame parses and classifies one frame and validates it against the spec for its kind.
